@@ -18,6 +18,10 @@ def dig(o):
 
 def main():
     out = sys.stdout
+    # the second parse of every input goes through ONE lexer and ONE parser kept for the whole run: the same string must
+    # give the same outcome whatever these instances processed before
+    from odata_query.grammar import ODataLexer, ODataParser
+    shared = (ODataLexer(), ODataParser())
     for line in sys.stdin:
         req = json.loads(line)
         res = []
@@ -25,7 +29,7 @@ def main():
             t0 = time.time()
             o1 = project.outcome(s)
             dt = time.time() - t0
-            o2 = project.outcome(s)
+            o2 = project.outcome(s, shared[0], shared[1])
             d1, d2 = dig(o1), dig(o2)
             detail = o1[1:3] if o1[0] not in ("ok",) else []
             res.append([o1[0], d1, detail, d1 != d2, round(dt, 4), project.diag(s) if req.get("diag") else None])
